@@ -331,6 +331,45 @@ REWRITERS = {"str::trim", "str::trim_end", "str::trim_start", "str::trim_matches
              "String::pop", "String::retain", "slice::trim_ascii", "slice::trim_ascii_end", "BytesNewline::trim_newlines", "StringNewline::trim_newlines"}
 
 
+def r9_8(ctx):
+    """writer/reader cross-check of *syntax classes*: every textual form the reader gives a meaning to (final ` (<kind><q>)`
+    group, a `[n]` line, a leading `$ ` / `> `) must be tested somewhere on the writer path from a raw output line to the
+    emitted expectation line, otherwise output that merely looks like test syntax is written unprotected and read back with
+    that meaning. The writer path is escaped_expectation_{ascii,unicode} plus the UnexpectedLines arm of generate_testcase."""
+    prog = ctx.prog
+    bodies = [prog.fn("escaped_expectation_ascii"), prog.fn("escaped_expectation_unicode"), prog.impl_fn("Outcome", "OutcomeTestGenerator", "generate_testcase"),
+              prog.fn("Escaper::escaped_expectation"), prog.fn("OutputStream::to_output_string")]
+    preds = []
+    for b in bodies:
+        o = Origins(b)
+        for sb, st in switches(b):
+            if bool_edges(b, sb) is None:
+                continue
+            tree = cond_tree(b, sb, o)
+            for n in tree.walk():
+                if n.kind == "call":
+                    m = method_name(n.a)
+                    lits = [const_str_of(prog, b, k) for k in n.kids[1:]] + [peel(k).a.as_char() for k in n.kids[1:] if peel(k).kind == "const" and peel(k).a.as_char()]
+                    preds.append((m, [x for x in lits if x is not None]))
+    def has(test):
+        return any(test(m, lits) for m, lits in preds)
+    classes = {
+        "modifier-suffix": (lambda m, l: (m in ("str::ends_with", "String::ends_with") and any(x in (")", " (") or x.endswith(")") and x != " (escaped)" for x in l)) or m.startswith("Regex::"),
+                            "an output line ending in ` (glob)`, ` (?)`, ` (regex+)` ... is written as it is and read back as an expectation with that kind / quantifier"),
+        "exit-code-line": (lambda m, l: (m in ("str::starts_with", "String::starts_with") and any(x == "[" for x in l)) or m.startswith("Regex::") or m.endswith("extract_exit_code"),
+                           "an output line `[1]` is written as it is and read back as the expected exit code"),
+        "continuation-prefix": (lambda m, l: m in ("str::starts_with", "String::starts_with") and any(x in ("> ", ">") for x in l),
+                                "a first output line `> x` is written as it is and read back as a continuation of the command"),
+        "command-prefix": (lambda m, l: m in ("str::starts_with", "String::starts_with") and any(x in ("$ ", "$") for x in l),
+                           "an output line `$ y` is written as it is and (in a Cram document) read back as a further command"),
+    }
+    for key, (test, text) in sorted(classes.items()):
+        ctx.check(has(test), "collision:" + key, bodies[0].where(),
+                  "the writer tests rendered lines for the `%s` form before emitting them unmarked" % key,
+                  "no decision on the writer path looks at the `%s` form (decisions found: %s): %s - the generated test fails on the very output it was generated from"
+                  % (key, sorted({m for m, _ in preds}), text))
+
+
 def r9_7(ctx):
     """the command is written back verbatim: between `testcase.shell_expression` and the `$ ` / `> ` lines of the generated
     test no trimming / replacing call is applied (to the expression lines or to the formatted lines)"""
@@ -412,6 +451,7 @@ def run(ctx):
     ctx.run_rule("R9.1", "Markdown fences: same `\"`\".repeat(max_backtick_size(body)+c)` value opens and closes, c>=1, measured text == emitted text; max_backtick_size >= 2, max over all lines [E-FLOW]", r9_1, floor=12)
     ctx.run_rule("R9.2", "no str::trim* is applied to a generated test body anywhere in src/generators [E-FLOW sweep]", r9_2, floor=2)
     ctx.run_rule("R9.3", "generate_testcase: matched expectations via original_string; unexpected lines via escaped_expectation(trim_newlines(line)) + ` (no-eol)` exactly on !ends_with(\\n) [E-FLOW, E-PATH]", r9_3, floor=8)
+    ctx.run_rule("R9.8", "writer/reader syntax-class cross-check: each form the reader interprets (` (kind q)` suffix, `[n]`, `$ `, `> `) is tested on the writer path [E-TABLE]", r9_8, floor=4)
     ctx.run_rule("R9.7", "the shell expression is written back verbatim (`$ `/`> ` + line): no trim/replace in generate_testcase_expression [E-FLOW]", r9_7, floor=3)
     ctx.run_rule("R9.6", "sibling agreement: ` (no-eol)` is never appended after an ` (escaped)` marker (guarded like OutputStream::to_output_string) [E-PATH control dependence]", r9_6, floor=3)
     ctx.run_rule("R9.5", "escaped renderings never contain the decoder's introducer unescaped; ` (escaped)` exactly when the rendering differs (shared with C11 R11.2/R11.3) [E-PATH]", r9_5, floor=10)
